@@ -19,7 +19,8 @@ import (
 )
 
 type channel struct {
-	mu                    sync.RWMutex
+	mpdMu                 sync.Mutex   // protects mpd and startTime, which upload requests and the channel goroutine both change. Taken before mu
+	mu                    sync.RWMutex // protects trDatas, trIDs, the master* fields and maxNrBufSegs
 	name                  string
 	dir                   string
 	authUser              string
@@ -126,6 +127,8 @@ func (ch *channel) addInitDataAndUpdateTimescale(stream stream, init *mp4.InitSe
 	if init == nil {
 		return fmt.Errorf("no moov box found in init segment")
 	}
+	ch.mpdMu.Lock() // Tracks are registered by concurrent upload requests
+	defer ch.mpdMu.Unlock()
 	r := &trData{
 		name:        stream.trName,
 		contentType: stream.mediaType,
@@ -300,7 +303,7 @@ func (ch *channel) addChunkData(rsd recSegData) {
 
 func (ch *channel) receivedSegData(rsd recSegData) {
 	log := slog.Default().With("chName", ch.name, "trName", rsd.name, "seqNr", rsd.seqNr)
-	if _, ok := ch.trDatas[rsd.name]; !ok {
+	if _, ok := ch.getTrData(rsd.name); !ok {
 		log.Error("received segData for unknown track")
 		return
 	}
@@ -344,8 +347,8 @@ func (ch *channel) receivedSegData(rsd recSegData) {
 						return
 					}
 					dur := sdb.items[1].dur
-					ch.masterSegDuration = dur
 					ch.mu.Lock()
+					ch.masterSegDuration = dur
 					rd := ch.trDatas[name]
 					ch.masterTimescale = rd.timeScaleOut
 					segTime0 := int64(sdb.items[0].dts)
@@ -370,7 +373,9 @@ func (ch *channel) receivedSegData(rsd recSegData) {
 					if err != nil {
 						log.Error("failed to write MPD", "err", err)
 					}
+					ch.mu.Lock()
 					ch.maxNrBufSegs = ch.timeShiftBufferDepthS*ch.masterTimescale/ch.masterSegDuration + 2
+					ch.mu.Unlock()
 					windowSize := ch.maxNrBufSegs - 1
 					log.Info("Starting channel", "windowSize", windowSize, "seqNrShift", ch.masterSeqNrShift,
 						"timeShift", ch.masterTimeShift)
@@ -384,6 +389,37 @@ func (ch *channel) receivedSegData(rsd recSegData) {
 	if ch.masterTimescale == 0 {
 		return // not ready yet
 	}
+}
+
+// getTrData returns the data of a registered track. Tracks are registered by concurrent upload requests.
+func (ch *channel) getTrData(name string) (*trData, bool) {
+	ch.mu.RLock()
+	defer ch.mu.RUnlock()
+	trd, ok := ch.trDatas[name]
+	return trd, ok
+}
+
+// trDataSnapshot returns the currently registered tracks.
+func (ch *channel) trDataSnapshot() map[string]*trData {
+	ch.mu.RLock()
+	defer ch.mu.RUnlock()
+	snap := make(map[string]*trData, len(ch.trDatas))
+	for name, trd := range ch.trDatas {
+		snap[name] = trd
+	}
+	return snap
+}
+
+// getOrAddRawTrData returns the data of a track received in raw mode, registering it if needed.
+func (ch *channel) getOrAddRawTrData(name string) (trd *trData, isNew bool) {
+	ch.mu.Lock()
+	defer ch.mu.Unlock()
+	trd, ok := ch.trDatas[name]
+	if !ok {
+		trd = &trData{name: name}
+		ch.trDatas[name] = trd
+	}
+	return trd, !ok
 }
 
 // addTrData adds track data and a segment.
@@ -476,6 +512,8 @@ func extractTextData(stsd *mp4.StsdBox, rep *m.RepresentationType) error {
 }
 
 func (ch *channel) updateAndWriteMPD(log *slog.Logger) error {
+	ch.mpdMu.Lock()
+	defer ch.mpdMu.Unlock()
 	for _, asSet := range ch.mpd.Periods[0].AdaptationSets {
 		stl := asSet.SegmentTemplate
 		dur := uint64(ch.masterSegDuration) * uint64((*stl.Timescale)) / uint64(ch.masterTimescale)
@@ -494,7 +532,9 @@ func (ch *channel) updateAndWriteMPD(log *slog.Logger) error {
 // deriveAndSetBitrates estimates bitrates for variants without bitrate information.
 // Only count unshifted or shifted segments, not both.
 func (ch *channel) deriveAndSetBitrates() {
-	for name, trd := range ch.trDatas {
+	ch.mpdMu.Lock()
+	defer ch.mpdMu.Unlock()
+	for name, trd := range ch.trDataSnapshot() {
 		if trd.init.Moov.Trak.Mdia.Minf.Stbl.Stsd.GetBtrt() == nil {
 			// Estimate bitrate from the segments available
 			sdb := ch.segTimesGen.segDataBuffers[name]
@@ -533,7 +573,9 @@ func (ch *channel) deriveAndSetBitrates() {
 }
 
 func (ch *channel) deriveAndSetFrameRates(log *slog.Logger) {
-	for name, trd := range ch.trDatas {
+	ch.mpdMu.Lock()
+	defer ch.mpdMu.Unlock()
+	for name, trd := range ch.trDataSnapshot() {
 		sdb := ch.segTimesGen.segDataBuffers[name]
 		if trd.contentType != "video" {
 			continue
